@@ -32,10 +32,10 @@ TRUSTED = [
 	'the URI model (parse, normalize) of C10-C12 and the Host model (Model/Host.lean incl. the glibc inet_pton transcription) are tied by their own correspondences; hosts needing the idna codec are outside the model (skipped)',
 ]
 ASSUMPTIONS = ['host comparison: a bracketed IPv6 literal in the Host field is delivered without its brackets (uri.host = "::1"); the oracle compares hosts up to the brackets and letter case', 'the Host field value is taken as the header parser trims it (Python bytes.strip: SP, HTAB and also VT, FF)', 'a status raised by parse() ends the history: the state machine is not fed again after an error (DESIGN.md 6.2)']
-RULE = ('request targets: all sequences of <= 4 (thorough: 6 sampled) tokens over {"/", ".", "..", "%2e", "%2E", "%2f", "%5c", "\\\\", "%25", "%c0%ae", "%252e", ";", "a", "b"} as origin-form, plus absolute-form, authority-form and asterisk-form targets, '
+RULE = ('request targets: all sequences of <= 4 (thorough: 6 sampled) tokens over {"/", ".", "..", "%2e", "%2E", "%2f", "%5c", "\\\\", "%25", "%c0%ae", "%252e", ";", "a", "b", "*"} as origin-form, plus absolute-form, authority-form and asterisk-form targets, '
 	'x Host forms (reg-name, IPv4, bracketed IPv6, with/without port, upper case, absent, sent twice; invalid: bad brackets / ports, short and non-decimal address forms, text after an address, URI delimiters, white space, control and 8-bit characters) x HTTP/1.0, 1.1; non-trivial = delivered; distinct by (target, host)')
 
-TOKENS = [b'/', b'.', b'..', b'%2e', b'%2E', b'%2f', b'%5c', b'\\', b'%25', b'%c0%ae', b'%252e', b';', b'a', b'b']
+TOKENS = [b'/', b'.', b'..', b'%2e', b'%2E', b'%2f', b'%5c', b'\\', b'%25', b'%c0%ae', b'%252e', b';', b'a', b'b', b'*']
 HOSTS = [b'example.com', b'EXAMPLE.com:8080', b'127.0.0.1', b'127.0.0.1:81', b'[::1]', b'[2001:db8::1]:8443', b'h:0', b'h:65536', b'h:99999999999', b'', b'a b', b'h:', b'[::1', b'1.2.3', b'under_score', b'h,i', None, b'x:y', b'-', b'h.:80', b'example.com]', b'[[::1]]', b'[example.com:81', b']example.com[', b'[::1]]:80', b'[h', b'h]:80', b'[1.2.3.4]',
 	# what lenient address parsers accept: short and non-decimal forms, text after the address
 	b'1.2.3.4 evil.example', b'1.2.3.4\tx', b'1.2.3.4 /../..', b'1.2.3.4 :80', b'127.1', b'0x7f.1', b'0x7f.0.0.1', b'017700000001', b'2130706433', b'1.2.3.4.', b'1.2.3.04', b'1.2.3.256', b'1.2.3.4:80 x', b'::1', b'[::1] x', b'[::1%25eth0]', b'[::ffff:1.2.3.4]', b'[::ffff:1.2.3.4 x]', b'h\x0b', b'h\x7f', b'h\xa0', b'h%20x', b'h%', b'h?x', b'h#x', b'h?', b'#', b'h/x', b'u@h', b'h\\x', b'a?b/../c', b'h#@evil', b'h|x', b'h`x', b'h\x00', b'h\x1f']
